@@ -30,6 +30,14 @@ import (
 // from the machine: the pair stage has every order (statement crediting / saving /
 // draining @a ; send $bal ...).
 //
+// Two stages of space_ext.go come on top of the shared space: X1 sends machine-word sized
+// amounts (10^18 .. 2^64 .. 10^30, balances up to 10^31) through every flat source and
+// destination allotment of a portion menu with numerators > 1, so that the conservation
+// law is also evaluated where amount x numerator leaves the 64-bit word although the amount
+// fits it (signature suffix :amount-x-numerator-ge-2^64); X2a writes sums and differences of
+// monetaries where a send takes a monetary (amount, `max`, overdraft bound): the sent amount
+// is then the value of the expression.
+//
 // After every run (successful or not) the state that outlives it is checked: the
 // package-level values machine.Zero and ledger.Zero are still 0 and the compiled
 // program (cached and shared between requests by the ledger) still has its constants.
@@ -53,15 +61,23 @@ func c22() int {
 	tuneRuntime()
 	r := ev.Start("C22", ev.LevelExploration, 100*time.Second, 15*time.Minute)
 	sp := numscriptSpace(r.Thorough())
+	// X1 (word-sized amounts through allotments) and X2a (sums / differences of monetaries in the
+	// positions of a send): see space_ext.go. X2b (`save <expr>`) is C23's: what `save` does to
+	// the tracked balance is not part of this property's statement.
+	x1, x1Rule := largeAmountStage(r.Thorough())
+	x2, x2Rule := exprStages(r.Thorough(), false)
+	sp.Stages = append(append([]stage{x1}, x2...), sp.Stages...)
+	sp.Rule += "; " + x1Rule + "; " + x2Rule
 	// The small stages go first (statement menu alone, variable amounts, every ordered pair
 	// of the statement menu: save, balance() variables, two sends, second asset): a run cut
 	// by its budget on a loaded machine has then covered every statement kind and every
 	// two-statement order, and what it loses is the tail of the big one-send products.
-	sp.Stages = stagesFirst(sp.Stages, "E4:", "E3:", "E5:")
+	sp.Stages = stagesFirst(sp.Stages, "X1:", "X2a:", "E4:", "E3:", "E5:")
 	guard := &globalGuard{}
 	samples := ev.NewSamples(6)
 	var nontrivial, sendsChecked, sendAllChecked, sendAllPositive, keptChecked, keptPositive, balancesChecked, balancePairs, refUndecided, twoSend atomic.Int64
 	var balVarSends, balVarAfterCredit, balVarAfterChange, creditAfterSaveAll, programChecks atomic.Int64
+	var wordProductSrc, wordProductDst, exprAmountSends atomic.Int64
 
 	viol := func(sig, what string, pc *progCtx, env *gen.Env, res *machineRun) {
 		r.Violation(sig, what+" | program: "+pc.Text, replayObj(pc.Text, env, map[string]any{"postings": postingsString(res.Postings), "machine_balances": balString(res.Balances)}))
@@ -256,6 +272,19 @@ func c22() int {
 					}
 					want := new(big.Int).Sub(amount, kept)
 					sendsChecked.Add(1)
+					// the send goes through a top-level allotment whose amount fits a 64-bit word while
+					// amount x (numerator of one of its portions) does not
+					wordSrc := s.Src.K == gen.SAllot && wordProduct(amount, s.Src.Por, env)
+					wordDst := s.Dst.K == gen.DAllot && wordProduct(amount, s.Dst.Por, env)
+					if wordSrc {
+						wordProductSrc.Add(1)
+					}
+					if wordDst {
+						wordProductDst.Add(1)
+					}
+					if !s.All && s.Amt.IsExpr() {
+						exprAmountSends.Add(1)
+					}
 					if balVar {
 						balVarSends.Add(1)
 						if balCredited {
@@ -282,7 +311,12 @@ func c22() int {
 						if kept.Sign() > 0 {
 							sig += ":kept"
 						}
-						viol(sig, fmt.Sprintf("statement %d: postings sum to %s, expected %s (sent %s, kept %s)", i+1, sum, want, amount, kept), pc, env, res)
+						note := ""
+						if wordSrc || wordDst {
+							sig += ":amount-x-numerator-ge-2^64"
+							note = "; the amount fits a 64-bit word, its product with a numerator of the allotment does not"
+						}
+						viol(sig, fmt.Sprintf("statement %d: postings sum to %s, expected %s (sent %s, kept %s)%s", i+1, sum, want, amount, kept, note), pc, env, res)
 					}
 				}
 			}
@@ -333,6 +367,10 @@ func c22() int {
 			r.EngineError("vacuous: no two-send program succeeded")
 		case balVarAfterCredit.Load() == 0:
 			r.EngineError("vacuous: no `send $bal` ($bal = balance(X, A)) was checked after an earlier statement had credited X in A")
+		case wordProductSrc.Load() == 0 || wordProductDst.Load() == 0:
+			r.EngineError(fmt.Sprintf("vacuous: no successful send through an allotment whose amount fits a 64-bit word while amount x numerator does not (source allotments %d, destination allotments %d)", wordProductSrc.Load(), wordProductDst.Load()))
+		case exprAmountSends.Load() == 0:
+			r.EngineError("vacuous: no successful send whose amount is a sum / difference of monetaries was checked")
 		case creditAfterSaveAll.Load() == 0:
 			r.EngineError("vacuous: no successful run credited a tracked account after `save [A *]` had emptied it")
 		case guard.Checks.Load() < st.Evals.Load() || programChecks.Load() != st.Evals.Load():
@@ -340,29 +378,32 @@ func c22() int {
 		}
 	}
 	cov := ev.Coverage{
-		"distinct_nontrivial":           nontrivial.Load(),
-		"rule":                          sp.Rule + "; stages run small-first (statement menu, variable amounts, ordered pairs, then the one-send products); after EVERY run, failed ones included: machine.Zero == 0, ledger.Zero == 0, compiled program (instructions, constant resources) unchanged; distinct_nontrivial = distinct programs that compiled AND had at least one successful run producing >= 1 posting",
-		"samples":                       samples.List(),
-		"exhaustive":                    all,
-		"stages":                        stages,
-		"bounds_fully_covered":          coveredStages(stages),
-		"sends_checked":                 sendsChecked.Load(),
-		"send_star_checked":             sendAllChecked.Load(),
-		"send_star_positive":            sendAllPositive.Load(),
-		"sends_with_kept_checked":       keptChecked.Load(),
-		"sends_with_positive_kept":      keptPositive.Load(),
-		"runs_balance_checked":          balancesChecked.Load(),
-		"tracked_pairs_checked":         balancePairs.Load(),
-		"two_send_runs_attributed":      twoSend.Load(),
-		"balance_var_sends_checked":     balVarSends.Load(),
-		"bal_var_sends_after_credit":    balVarAfterCredit.Load(),
-		"bal_var_sends_after_change":    balVarAfterChange.Load(),
-		"credits_after_save_all":        creditAfterSaveAll.Load(),
-		"global_state_checks":           guard.Checks.Load(),
-		"compiled_program_checks":       programChecks.Load(),
-		"runs_redone_after_damage":      guard.Redone.Load(),
-		"reference_undecided_sends":     refUndecided.Load(),
-		"traces_validated_against_impl": st.Evals.Load(),
+		"distinct_nontrivial":        nontrivial.Load(),
+		"rule":                       sp.Rule + "; stages run small-first (X1, X2a, statement menu, variable amounts, ordered pairs, then the one-send products); after EVERY run, failed ones included: machine.Zero == 0, ledger.Zero == 0, compiled program (instructions, constant resources) unchanged; distinct_nontrivial = distinct programs that compiled AND had at least one successful run producing >= 1 posting",
+		"samples":                    samples.List(),
+		"exhaustive":                 all,
+		"stages":                     stages,
+		"bounds_fully_covered":       coveredStages(stages),
+		"sends_checked":              sendsChecked.Load(),
+		"send_star_checked":          sendAllChecked.Load(),
+		"send_star_positive":         sendAllPositive.Load(),
+		"sends_with_kept_checked":    keptChecked.Load(),
+		"sends_with_positive_kept":   keptPositive.Load(),
+		"runs_balance_checked":       balancesChecked.Load(),
+		"tracked_pairs_checked":      balancePairs.Load(),
+		"two_send_runs_attributed":   twoSend.Load(),
+		"balance_var_sends_checked":  balVarSends.Load(),
+		"bal_var_sends_after_credit": balVarAfterCredit.Load(),
+		"bal_var_sends_after_change": balVarAfterChange.Load(),
+		"credits_after_save_all":     creditAfterSaveAll.Load(),
+		"sends_checked_src_allotment_amount_lt_2^64_product_ge_2^64": wordProductSrc.Load(),
+		"sends_checked_dst_allotment_amount_lt_2^64_product_ge_2^64": wordProductDst.Load(),
+		"sends_checked_expression_amount":                            exprAmountSends.Load(),
+		"global_state_checks":                                        guard.Checks.Load(),
+		"compiled_program_checks":                                    programChecks.Load(),
+		"runs_redone_after_damage":                                   guard.Redone.Load(),
+		"reference_undecided_sends":                                  refUndecided.Load(),
+		"traces_validated_against_impl":                              st.Evals.Load(),
 	}
 	st.fill(cov)
 	return r.Finish(cov, []string{
